@@ -91,6 +91,18 @@ def run_case(pair, ops, res):
                 ia, _ = p.do("open W D")
                 if ia != "ok":
                     raise Violation("reopen:result", "reopen answered " + ia[:100], k)
+            elif op[0] == "rebuild":
+                # "create or open": the plain builder (open = false) WITH some key pair over storage that already holds
+                # the core: the stored key pair wins, and everything signed afterwards is signed by the core's key
+                p.raw("drop W")
+                ia, _ = p.do("new W D " + op[1])
+                if ia != "ok":
+                    raise Violation("rebuild:result", "builder over existing storage (key pair role %s) answered %s" % (op[1], ia[:100]), k)
+                ib, _ = p.do("keypair W")
+                pk = p.impl.cmd("prim pub main").split(" ")[1]
+                if ib != "ok %s 1" % pk:
+                    raise Violation("rebuild:keypair", "builder over existing storage (key pair role %s): the core's key pair is %s, "
+                                    "the stored one is %s with its secret key" % (op[1], ib, pk[:16]), k)
             elif op[0] == "clear":
                 # a call that rewrites the header WITHOUT signing anything: the stored signature must still be the head's
                 if op[1] < len(blocks):
@@ -130,6 +142,13 @@ def gen(r, tier):
         ops += tail + [("reopen",)]
         if tail[-1][0] != "readonly" and r.random() < 0.5:
             ops += [("append", [rnd_block(r)]), ("reopen",)]
+        cases.append(ops)
+    # the builder without open mode over existing storage, with the same, another or a public-only key pair
+    for k in range(6 if tier == "quick" else 90):
+        ops = [("append", [rnd_block(r) for _ in range(r.choice([1, 2, 3]))]) for _ in range(r.choice([1, 2, 5]))]
+        ops.append(("rebuild", ["altwriter", "writer", "replica", "altreplica"][k % 4]))
+        ops += [("append", [rnd_block(r) for _ in range(r.choice([1, 2]))]) for _ in range(r.choice([1, 2, 4]))]
+        ops += [("reopen",), ("append", [rnd_block(r)])]
         cases.append(ops)
     for _ in range(3 if tier == "quick" else 40):
         n = r.choice([40, 64, 65, 100, 129]) if tier == "quick" else r.choice([257, 300, 512, 1025, 2000])
